@@ -60,6 +60,9 @@ type Ctl struct {
 	RandSeed uint64
 	Pid      int
 	Host     string
+	// StdoutFailFrom: from this write on (1-based; 0 = never) every write to the standard streams fails with ENOSPC
+	StdoutFailFrom int
+	stdWrites      int
 	// fault plan
 	Faults []Fault
 	// Root is the private directory tree of the run; see guard.go
